@@ -14,13 +14,21 @@ pub(crate) fn process_email_autolinks<'a>(
     sourcepos: &mut Sourcepos,
     spx: &mut Spx,
 ) {
-    let contents = contents_str.as_bytes();
-    let len = contents.len();
-    let mut i = 0;
+    // Each address ends the current text node; a link follows it and, when
+    // text is left, a new text node follows the link and is searched in turn.
+    // `start` is where the current text node begins in `contents_str`, which
+    // is cut down to the text of `node` itself only at the end: however many
+    // addresses there are, no part of the text is copied more than once and
+    // nothing recurses.
+    let mut start = 0;
+    let mut node_len = None;
+    let mut last_link: Option<&'a AstNode<'a>> = None;
+    let mut sp = *sourcepos;
 
-    while i < len {
-        #[cfg(comrak_verif)]
-        crate::verif::step();
+    loop {
+        let contents = &contents_str.as_bytes()[start..];
+        let len = contents.len();
+        let mut i = 0;
         let mut post_org = None;
         let mut bracket_opening = 0;
 
@@ -54,65 +62,67 @@ pub(crate) fn process_email_autolinks<'a>(
             i += 1;
         }
 
-        if let Some((post, reverse, skip)) = post_org {
-            i -= reverse;
-            node.insert_after(post);
+        let (post, reverse, skip) = match post_org {
+            Some(found) => found,
+            None => break,
+        };
+        i -= reverse;
 
-            let remain = if i + skip < len {
-                let remain = str::from_utf8(&contents[i + skip..]).unwrap();
-                assert!(!remain.is_empty());
-                Some(remain.to_string())
-            } else {
-                None
-            };
-            let initial_end_col = sourcepos.end.column;
+        let has_remain = i + skip < len;
+        let initial_end_col = sp.end.column;
 
-            sourcepos.end.column = spx.consume(i);
+        sp.end.column = spx.consume(i);
 
-            let nsp_end_col = spx.consume(skip);
+        let nsp_end_col = spx.consume(skip);
 
-            contents_str.truncate(i);
-
-            let nsp: Sourcepos = (
-                sourcepos.end.line,
-                sourcepos.end.column + 1,
-                sourcepos.end.line,
-                nsp_end_col,
-            )
-                .into();
-            post.data.borrow_mut().sourcepos = nsp;
-            // Inner text gets same sourcepos as link, since there's nothing but
-            // the text.
-            post.first_child().unwrap().data.borrow_mut().sourcepos = nsp;
-
-            if let Some(remain) = remain {
-                let mut asp: Sourcepos = (
-                    sourcepos.end.line,
-                    nsp.end.column + 1,
-                    sourcepos.end.line,
-                    initial_end_col,
-                )
-                    .into();
-                let after = make_inline(arena, NodeValue::Text(remain.to_string()), asp);
-                post.insert_after(after);
-
-                let after_ast = &mut after.data.borrow_mut();
-                process_email_autolinks(
-                    arena,
-                    after,
-                    match after_ast.value {
-                        NodeValue::Text(ref mut t) => t,
-                        _ => unreachable!(),
-                    },
-                    relaxed_autolinks,
-                    &mut asp,
-                    spx,
-                );
-                after_ast.sourcepos = asp;
+        // The current text node ends where the address begins.
+        match last_link {
+            None => {
+                node_len = Some(i);
+                *sourcepos = sp;
+                node.insert_after(post);
             }
-
-            return;
+            Some(link) => {
+                let text = str::from_utf8(&contents[..i]).unwrap();
+                let before = make_inline(arena, NodeValue::Text(text.to_string()), sp);
+                link.insert_after(before);
+                before.insert_after(post);
+            }
         }
+
+        let nsp: Sourcepos = (sp.end.line, sp.end.column + 1, sp.end.line, nsp_end_col).into();
+        post.data.borrow_mut().sourcepos = nsp;
+        // Inner text gets same sourcepos as link, since there's nothing but
+        // the text.
+        post.first_child().unwrap().data.borrow_mut().sourcepos = nsp;
+
+        if !has_remain {
+            last_link = None;
+            break;
+        }
+
+        sp = (
+            sp.end.line,
+            nsp.end.column + 1,
+            sp.end.line,
+            initial_end_col,
+        )
+            .into();
+        last_link = Some(post);
+        start += i + skip;
+    }
+
+    if let Some(link) = last_link {
+        // the text after the last address
+        let after = make_inline(
+            arena,
+            NodeValue::Text(contents_str[start..].to_string()),
+            sp,
+        );
+        link.insert_after(after);
+    }
+    if let Some(len) = node_len {
+        contents_str.truncate(len);
     }
 }
 fn email_match<'a>(
